@@ -1427,6 +1427,228 @@ fn values_offset16_boundaries(st: &mut Stats) {
     }
 }
 
+// ---------------------------------------------------------------------------------------------
+// glyf composites: generated components (anchor kind x boundary values x transform kind x flags),
+// with and without instructions; written with write-fonts, read back through BOTH read-fonts decoders
+// (components() and the fast flags iterator / instructions()), converted to owned, recompiled.
+// ---------------------------------------------------------------------------------------------
+fn composite_case(st: &mut Stats, key: &str, comps: &[wt::glyf::Component], instructions: &[u8]) {
+    use wt::glyf::*;
+    use write_fonts::read::tables::glyf as rg;
+    let bbox = Bbox { x_min: -11, y_min: -22, x_max: 33, y_max: 44 };
+    let mk = |cs: &[Component]| {
+        let mut g = CompositeGlyph::new(cs[0].clone(), bbox);
+        for c in &cs[1..] {
+            g.add_component(c.clone(), bbox);
+        }
+        g
+    };
+    let owned = mk(comps);
+    // (1) the owned value (no instructions can be set through the public API)
+    let b0 = match rt_value(st, &format!("value:CompositeGlyph:{}", key), &owned) {
+        Some(b) => b,
+        None => return,
+    };
+    // (2) the same glyph with instructions, as a font would contain it: WE_HAVE_INSTRUCTIONS on the last
+    //     component + u16 length + bytes
+    let mut bytes = b0.clone();
+    if !instructions.is_empty() {
+        let last_flags_at = if comps.len() == 1 { 10 } else { dump_table(&mk(&comps[..comps.len() - 1])).map(|b| b.len()).unwrap_or(10) };
+        bytes[last_flags_at] |= 0x01; // WE_HAVE_INSTRUCTIONS = 0x0100
+        bytes.extend_from_slice(&(instructions.len() as u16).to_be_bytes());
+        bytes.extend_from_slice(instructions);
+        if bytes.len() % 2 == 1 {
+            bytes.push(0); // glyphs are padded to 2-byte alignment, as the writer does
+        }
+    }
+    st.evaluations += 1;
+    let k = format!("composite:{}:ins{}", key, instructions.len());
+    let comps2 = comps.to_vec();
+    let ins2 = instructions.to_vec();
+    let bytes2 = bytes.clone();
+    let r = catch(AssertUnwindSafe(move || -> Result<(), String> {
+        let t = rg::CompositeGlyph::read(FontData::new(&bytes2)).map_err(|e| e.to_string())?;
+        // decoder 1: components()
+        let got: Vec<rg::Component> = t.components().collect();
+        if got.len() != comps2.len() {
+            return Err(format!("components(): {} components, wrote {}", got.len(), comps2.len()));
+        }
+        for (i, (g, w)) in got.iter().zip(comps2.iter()).enumerate() {
+            let f = g.flags;
+            let wf = w.flags;
+            let flags_ok = f.contains(rg::CompositeGlyphFlags::ROUND_XY_TO_GRID) == wf.round_xy_to_grid
+                && f.contains(rg::CompositeGlyphFlags::USE_MY_METRICS) == wf.use_my_metrics
+                && f.contains(rg::CompositeGlyphFlags::SCALED_COMPONENT_OFFSET) == wf.scaled_component_offset
+                && f.contains(rg::CompositeGlyphFlags::UNSCALED_COMPONENT_OFFSET) == wf.unscaled_component_offset
+                && f.contains(rg::CompositeGlyphFlags::OVERLAP_COMPOUND) == wf.overlap_compound
+                && f.contains(rg::CompositeGlyphFlags::MORE_COMPONENTS) == (i + 1 < comps2.len())
+                && f.contains(rg::CompositeGlyphFlags::WE_HAVE_INSTRUCTIONS) == (i + 1 == comps2.len() && !ins2.is_empty());
+            if g.glyph != w.glyph || g.anchor != w.anchor || g.transform != w.transform || !flags_ok {
+                return Err(format!("components()[{}]: read {:?}, wrote {:?}", i, g, w));
+            }
+        }
+        // decoder 2: the fast iterator and what hangs off it
+        let fast: Vec<GlyphId16> = t.component_glyphs_and_flags().map(|(g, _)| g).collect();
+        let want: Vec<GlyphId16> = comps2.iter().map(|c| c.glyph).collect();
+        if fast != want {
+            return Err(format!("component_glyphs_and_flags(): {:?}, wrote {:?}", fast, want));
+        }
+        let (n, ins) = t.count_and_instructions();
+        let want_ins: Option<&[u8]> = if ins2.is_empty() { None } else { Some(&ins2) };
+        if n != comps2.len() || ins != want_ins || t.instructions() != want_ins {
+            return Err(format!("count_and_instructions(): ({}, {:?} bytes), instructions(): {:?} bytes; wrote {} components, {} instruction bytes", n, ins.map(|i| i.len()), t.instructions().map(|i| i.len()), comps2.len(), ins2.len()));
+        }
+        // parsed -> owned -> compile: the same bytes; re-read owned: the same value; also through the Glyph union
+        let o1: CompositeGlyph = t.to_owned_table();
+        let b1 = dump_table(&o1).map_err(|e| e.to_string())?;
+        if b1 != bytes2 {
+            return Err(format!("owned form of the parsed glyph compiles to {} bytes, source has {}", b1.len(), bytes2.len()));
+        }
+        let o2 = CompositeGlyph::read(FontData::new(&b1)).map_err(|e| e.to_string())?;
+        if o2 != o1 {
+            return Err("re-read owned composite differs".into());
+        }
+        match Glyph::read(FontData::new(&bytes2)).map_err(|e| e.to_string())? {
+            Glyph::Composite(c) if c == o1 => {}
+            other => return Err(format!("Glyph::read gives {:?}", other).chars().take(200).collect()),
+        }
+        Ok(())
+    }));
+    match r {
+        Ok(Ok(())) => {
+            st.count("composite.ok");
+            st.nontrivial(&k);
+        }
+        Ok(Err(e)) | Err(e) => {
+            st.count("composite.differs");
+            let v = json!({"key": k, "outcome": "composite glyph does not read back", "detail": e.chars().take(400).collect::<String>()});
+            fail(st, &k, v);
+        }
+    }
+}
+
+fn values_composites(st: &mut Stats, rng: &mut Rng) {
+    use wt::glyf::*;
+    let off_vals = [-129i16, -128, -1, 0, 127, 128, 300, -32768, 32767];
+    let pt_vals = [0u16, 1, 127, 128, 254, 255, 256, 65535];
+    let f = |v: f32| F2Dot14::from_f32(v);
+    let transforms = [
+        ("none", Transform { xx: f(1.0), yx: f(0.0), xy: f(0.0), yy: f(1.0) }),
+        ("scale", Transform { xx: f(0.5), yx: f(0.0), xy: f(0.0), yy: f(0.5) }),
+        ("xy", Transform { xx: f(0.5), yx: f(0.0), xy: f(0.0), yy: f(-1.25) }),
+        ("2x2", Transform { xx: f(0.25), yx: f(0.5), xy: f(-0.75), yy: f(1.5) }),
+        ("2x2-yx-only", Transform { xx: f(1.0), yx: f(-0.125), xy: f(0.0), yy: f(1.0) }),
+    ];
+    let flag_sets: Vec<ComponentFlags> = (0..6)
+        .map(|k| ComponentFlags { round_xy_to_grid: k == 1, use_my_metrics: k == 2, scaled_component_offset: k == 3, unscaled_component_offset: k == 4, overlap_compound: k == 5 })
+        .collect();
+    let ins_lens = [0usize, 1, 3, 255, 256];
+    let ins = |n: usize| -> Vec<u8> { (0..n).map(|i| (i * 7 + 1) as u8).collect() };
+    let mut anchors: Vec<(String, Anchor)> = vec![];
+    for &x in &off_vals {
+        for &y in &off_vals {
+            anchors.push((format!("off({},{})", x, y), Anchor::Offset { x, y }));
+        }
+    }
+    for &b in &pt_vals {
+        for &c in &pt_vals {
+            anchors.push((format!("pt({},{})", b, c), Anchor::Point { base: b, component: c }));
+        }
+    }
+    // single component: every anchor x every transform; flags and instruction lengths cycle
+    let mut i = 0usize;
+    for (an, a) in &anchors {
+        for (tn, t) in &transforms {
+            let fl = flag_sets[i % flag_sets.len()];
+            let c = Component::new(gid(100 + (i % 900) as u16), *a, *t, fl);
+            composite_case(st, &format!("1:{}:{}:f{}", an, tn, i % flag_sets.len()), &[c], &ins(ins_lens[i % ins_lens.len()]));
+            i += 1;
+        }
+    }
+    // every flag x every transform x with / without instructions on a fixed anchor
+    for (fi, fl) in flag_sets.iter().enumerate() {
+        for (tn, t) in &transforms {
+            for &il in &ins_lens {
+                let c = Component::new(gid(7), Anchor::Offset { x: 5, y: -6 }, *t, *fl);
+                composite_case(st, &format!("flags{}:{}", fi, tn), &[c], &ins(il));
+            }
+        }
+    }
+    // 2..4 components: random mixtures (each position gets every transform kind in turn)
+    for k in 0..240usize {
+        let n = 2 + k % 3;
+        let comps: Vec<Component> = (0..n)
+            .map(|j| {
+                let (_, a) = rng.pick(&anchors).clone();
+                let (_, t) = transforms[(k + j * 2 + j * j) % transforms.len()];
+                Component::new(gid(rng.below(65_535) as u16), a, t, *rng.pick(&flag_sets))
+            })
+            .collect();
+        composite_case(st, &format!("{}:mix{}", n, k), &comps, &ins(ins_lens[k % ins_lens.len()]));
+    }
+    // through GlyfLocaBuilder: glyf + loca of simple, composite and empty glyphs, read back glyph by glyph
+    {
+        use write_fonts::read::tables as rt;
+        let mut path = kurbo::BezPath::new();
+        path.move_to((0.0, 0.0));
+        path.line_to((100.0, 0.0));
+        path.quad_to((150.0, 80.0), (50.0, 100.0));
+        path.close_path();
+        let simple = SimpleGlyph::from_bezpath(&path).ok();
+        for round in 0..6usize {
+            let mut glyphs: Vec<Glyph> = vec![];
+            if let Some(sg) = &simple {
+                glyphs.push(Glyph::Simple(sg.clone()));
+            }
+            glyphs.push(Glyph::Empty);
+            for j in 0..4usize {
+                let (_, a) = anchors[(round * 37 + j * 11) % anchors.len()].clone();
+                let (_, t) = transforms[(round + j) % transforms.len()];
+                let mut cg = CompositeGlyph::new(Component::new(gid(0), a, t, flag_sets[(round + j) % 6]), Bbox { x_min: 0, y_min: 0, x_max: 9, y_max: 9 });
+                if j % 2 == 1 {
+                    cg.add_component(Component::new(gid(1), Anchor::Point { base: 255, component: 255 }, transforms[3].1, flag_sets[j]), Bbox { x_min: -5, y_min: 0, x_max: 9, y_max: 19 });
+                }
+                glyphs.push(Glyph::Composite(cg));
+            }
+            st.evaluations += 1;
+            let k = format!("glyf-loca-builder:{}", round);
+            let gl = glyphs.clone();
+            let r = catch(AssertUnwindSafe(move || -> Result<(), String> {
+                let mut b = GlyfLocaBuilder::new();
+                for g in &gl {
+                    b.add_glyph(g).map_err(|e| e.to_string())?;
+                }
+                let (glyf, loca, fmt) = b.build();
+                let gb = dump_table(&glyf).map_err(|e| e.to_string())?;
+                let lb = dump_table(&loca).map_err(|e| e.to_string())?;
+                let rglyf = rt::glyf::Glyf::read(FontData::new(&gb)).map_err(|e| e.to_string())?;
+                let rloca = rt::loca::Loca::read(FontData::new(&lb), matches!(fmt, wt::loca::LocaFormat::Long)).map_err(|e| e.to_string())?;
+                for (i, g) in gl.iter().enumerate() {
+                    let back = rloca.get_glyf(GlyphId::new(i as u32), &rglyf).map_err(|e| e.to_string())?;
+                    let owned: Glyph = match back {
+                        Some(t) => t.to_owned_table(),
+                        None => Glyph::Empty,
+                    };
+                    if &owned != g {
+                        return Err(format!("glyph {} reads back as {:?}, wrote {:?}", i, owned, g).chars().take(400).collect());
+                    }
+                }
+                Ok(())
+            }));
+            match r {
+                Ok(Ok(())) => {
+                    st.count("glyf-loca-builder.ok");
+                    st.nontrivial(&k);
+                }
+                Ok(Err(e)) | Err(e) => {
+                    let v = json!({"key": k, "outcome": "glyf/loca built by GlyfLocaBuilder does not read back", "detail": e});
+                    fail(st, &k, v);
+                }
+            }
+        }
+    }
+}
+
 fn values_misc(st: &mut Stats, rng: &mut Rng) {
     // maxp 0.5 / 1.0
     {
@@ -1949,6 +2171,7 @@ fn main() {
     values_distinct_fields(&mut st);
     values_offset_shapes_and_big_counts(&mut st);
     values_offset16_boundaries(&mut st);
+    values_composites(&mut st, &mut rng);
     shards(&mut st, &mut cw, &mut rng, thorough);
     values_custom_codecs(&mut st, &mut cw, &mut rng);
     let shards = cw.finish();
